@@ -128,6 +128,45 @@ def specUn (s : Shape) (cpp : Bool) (op : UnOp) (t : CT) : CT :=
 def specTernary (s : Shape) (cpp : Bool) (t1 t2 : CT) : CT :=
   if cpp && t1 == t2 then t1 else uac s t1 t2
 
+/-! ## Integer literals: C17 6.4.4.1p5 / C++17 [lex.icon] table 7 -/
+
+/-- how the literal is spelled; binary literals go with hexadecimal ("octal or hexadecimal constant" column) -/
+inductive Base
+  | dec | oct | hex
+  deriving DecidableEq, Repr, Inhabited
+
+/-- the type of an integer literal: the first type of the list selected by base and suffix in which the value can be
+    represented; `none`: no type of the list can (the program is ill-formed or uses an extended type).
+    `imax lmax llmax` = INT_MAX, LONG_MAX, LLONG_MAX; the unsigned maxima are `2*max+1`. -/
+def firstFit (value : Nat) : List (CT × Nat) → Option CT
+  | [] => none
+  | (t, m) :: r => if value ≤ m then some t else firstFit value r
+
+def litSpec (imax lmax llmax : Nat) (base : Base) (us : Bool) (longs value : Nat) : Option CT :=
+  let nondec := base != .dec
+  firstFit value (
+    (if longs = 0 ∧ us = false then [(CT.int, imax)] else []) ++
+    (if longs = 0 ∧ (us = true ∨ nondec = true) then [(CT.uint, 2 * imax + 1)] else []) ++
+    (if longs ≤ 1 ∧ us = false then [(CT.long, lmax)] else []) ++
+    (if longs ≤ 1 ∧ (us = true ∨ nondec = true) then [(CT.ulong, 2 * lmax + 1)] else []) ++
+    (if us = false then [(CT.llong, llmax)] else []) ++
+    (if us = true ∨ nondec = true then [(CT.ullong, 2 * llmax + 1)] else []))
+
+/-- K6: a hexadecimal / binary literal (with or without `u`) whose value lies in the window the code's `value >> 2`
+    test wrongly admits: `UINT_MAX < value ≤ 2*UINT_MAX+1` (typed `unsigned int`), resp. the same for `long` -/
+def hexWindow (imax lmax : Nat) (base : Base) (longs value : Nat) : Bool :=
+  base == .hex &&
+  ((longs == 0 && decide (2 * imax + 2 ≤ value) && decide (value ≤ 4 * imax + 3)) ||
+   (decide (longs ≤ 1) && decide (2 * lmax + 2 ≤ value) && decide (value ≤ 4 * lmax + 3)))
+
+/-- K7: an octal literal without `u` whose language type is `unsigned int` / `unsigned long` (it fits the unsigned but
+    not the signed type of that rank): the code treats it as a decimal literal (`MathLib::isDec` accepts any digit
+    string) and never considers these types -/
+def octalAsDecimal (imax lmax : Nat) (base : Base) (us : Bool) (longs value : Nat) : Bool :=
+  base == .oct && !us &&
+  ((longs == 0 && decide (imax < value) && decide (value ≤ 2 * imax + 1)) ||
+   (decide (longs ≤ 1) && decide (lmax < value) && decide (value ≤ 2 * lmax + 1)))
+
 /-- what `declVT` (the tool's representation) makes of a language type; the spec results are compared through it -/
 def asVT (t : CT) : VT := declVT t
 
@@ -153,6 +192,10 @@ def promotesToUnsigned (s : Shape) (t : CT) : Bool :=
 
 /-- the type has rank below `int` (it is changed by the integer promotions) -/
 def belowInt (t : CT) : Bool := !t.isFloating && decide (irank t < irank .int)
+
+/-- K5 (with `?:`): the two operand types have the same `ValueType::Type` (all that `ValueType::isTypeEqual` compares
+    for arithmetic types): `int`/`unsigned int`, `char`/`signed char`/`unsigned char`, … -/
+def sameVType (t1 t2 : CT) : Bool := (declVT t1).type == (declVT t2).type
 
 /-- K3: the expression is boolean-valued (`a < b`, `a && b`, `!a` …); the code types it `bool` in both languages,
     C gives `int` -/
